@@ -305,3 +305,32 @@ Theorem C20_relate_keeps_relation_lists : forall (pool : list intr) s c1 d1 c2 d
   refs_in (fun t => In t pool) (refs s') /\ lists_nodup (refs s').
 Proof. exact relate_keeps_relation_lists. Qed.
 Print Assumptions C20_relate_keeps_relation_lists.
+
+(* ---- remove keeps the relation-list hypotheses; hence they hold in every reachable state, and the unrelate theorem
+   needs no state hypothesis *)
+Require Import Verif.Proofs.C20_rm.
+
+Theorem C20_remove_keeps_relation_lists : forall (pool : list intr) s c d s' e,
+  refs_in (fun t => In t pool) (refs s) -> lists_nodup (refs s) -> remove s c d = (s', e) ->
+  refs_in (fun t => In t pool) (refs s') /\ lists_nodup (refs s').
+Proof. exact remove_keeps_relation_lists. Qed.
+Print Assumptions C20_remove_keeps_relation_lists.
+
+Theorem C20_reachable_relation_lists : forall (pool : list intr) ops,
+  (forall x y, In x pool -> In y pool -> cont_eq x y = true -> x = y) ->
+  Forall (op_in (fun t => In t pool)) ops ->
+  (forall c d t, lookup (run_state init ops) c d = Some t -> In t pool) /\
+  refs_in (fun t => In t pool) (refs (run_state init ops)) /\ lists_nodup (refs (run_state init ops)).
+Proof. exact reachable_relation_lists. Qed.
+Print Assumptions C20_reachable_relation_lists.
+
+Theorem C20_unrelate_withdraws_exactly_reachable : forall (pool : list intr) ops c1 d1 c2 d2 s',
+  (forall x y, In x pool -> In y pool -> cont_eq x y = true -> x = y) ->
+  Forall (op_in (fun t => In t pool)) ops ->
+  unrelate (run_state init ops) [(c1, d1); (c2, d2)] = Ok s' ->
+  exists x y, lookup (run_state init ops) c1 d1 = Some x /\ lookup (run_state init ops) c2 d2 = Some y /\
+    forall a b, In a pool -> In b pool ->
+      (linked s' a b = true <->
+       linked (run_state init ops) a b = true /\ ~ ((a = x \/ a = y) /\ (b = x \/ b = y))).
+Proof. exact unrelate_withdraws_exactly_reachable. Qed.
+Print Assumptions C20_unrelate_withdraws_exactly_reachable.
